@@ -1,6 +1,7 @@
 CFG = {
     "lean_targets": ["Norad.Props.C13"],
     "audit": "Norad/Audit/C13.lean",
+    "extract": "fontinfo_rules",
     "rule": ("per rule an exhaustive sweep across its boundary, each value sent through FontInfo::validate, Font::save and Font::save_with_options (default and custom options) "
              "(over an existing directory) and Font::load of a generated fontinfo.plist: the six PostScript lists at every "
              "length 0..17; all 256 subsets of selection bits 0..7; family class 0..16 x 0..17; every two-digit date field "
@@ -16,6 +17,7 @@ CFG = {
     "trusted_base": COMMON_TRUST + [
         "modelled, not verified: plist/serde decoding of fontinfo.plist into the typed fields (the model's `deser` states what is assumed: u8/u32 narrowing, fixed lengths, enum tables) and plist encoding on save",
         "the projection: PostScript lists are represented by their length, WOFF records by their emptiness structure; the harness builds list elements and record texts itself",
+        "tools/extract_fontinfo_rules.py (regex over FontInfo::validate and Os2FamilyClass::is_valid; per section it falls back to the pinned copy when a block contains a test it does not recognise): a wrong extraction can only make a source_* theorem fail or report `extraction: pinned`",
         "Norad/Model/FINum.lean: decoding of f64 bit patterns to exact magnitudes (comparison with 0 and 360)",
     ],
     "assumptions": [
@@ -25,7 +27,7 @@ CFG = {
 }
 
 MANIFEST = {
-    "text": ("Theorem validate_iff_rules: the transcription of FontInfo::validate (date slicing as partial byte-offset operations on characters "
+    "text": ("The rule constants (list limits, pairs set, date length / separators / field ranges, selection bits, class bounds, angle range, WOFF emptiness tests) are re-extracted from src/fontinfo.rs on every run and tied to the model's literals and to an independent rule table by decide-theorems (source_*). Theorem validate_iff_rules: the transcription of FontInfo::validate (date slicing as partial byte-offset operations on characters "
              "with UTF-8 sizes, gasp loop, identifier set loop, bit/class/list/WOFF checks, in source order) returns ok for ANY font info exactly "
              "when the independent per-rule specification holds; it never reaches a slicing panic; a loaded or saved info satisfies the rules; the "
              "three entry points agree on every value that can reach all three. The model is tied to the code by exhaustive per-rule boundary "
